@@ -36,6 +36,7 @@ const (
 	simCrashAfter          // effect, then process dies
 	simHang                // the operation stalls until the caller's context expires, then fails without effect (virtual time only)
 	simSlow                // the operation takes Mask milliseconds (virtual time only) and then completes normally
+	simErrDeadline         // no effect; the error wraps context.DeadlineExceeded although the caller's context is alive (the store's own client timeout)
 )
 
 // simVirtualTime is set while a case runs inside a testing/synctest bubble: context deadlines then expire on virtual
@@ -43,7 +44,7 @@ const (
 var simVirtualTime bool
 
 func (m simMode) String() string {
-	return [...]string{"ok", "err-not-applied", "err-applied", "crash-before", "crash-after", "stall-until-deadline", "slow"}[m]
+	return [...]string{"ok", "err-not-applied", "err-applied", "crash-before", "crash-after", "stall-until-deadline", "slow", "err-deadline-exceeded"}[m]
 }
 
 // simFault addresses one operation of the current phase of an incarnation.
@@ -72,16 +73,17 @@ func (f simFault) String() string {
 }
 
 type simOp struct {
-	N       int // global operation number
-	Proc    int
-	Phase   string
-	Kind    string // upload fetch discard lock-fetch lock-replace lock-create
-	Class   string
-	Key     string
-	Mode    simMode
-	Applied bool
-	Err     bool
-	Inline  bool
+	deadline error // set when the operation ended because a deadline expired: the returned error wraps it
+	N        int   // global operation number
+	Proc     int
+	Phase    string
+	Kind     string // upload fetch discard lock-fetch lock-replace lock-create
+	Class    string
+	Key      string
+	Mode     simMode
+	Applied  bool
+	Err      bool
+	Inline   bool
 }
 
 func (o simOp) String() string {
@@ -342,7 +344,7 @@ func (p *simProc) decide(op *simOp) simMode {
 
 // stall implements simHang: called with w.mu held, it waits (lock released) for the caller's context to expire.
 // It returns the mode the operation then ends with.
-func (p *simProc) stall(ctx context.Context, mode simMode) simMode {
+func (p *simProc) stall(ctx context.Context, op *simOp, mode simMode) simMode {
 	if mode == simSlow {
 		if simVirtualTime {
 			d := time.Duration(p.slowMs) * time.Millisecond
@@ -352,6 +354,10 @@ func (p *simProc) stall(ctx context.Context, mode simMode) simMode {
 			p.w.slows++
 		}
 		return simOK
+	}
+	if mode == simErrDeadline {
+		op.deadline = context.DeadlineExceeded
+		return simErrNoApply
 	}
 	if mode != simHang {
 		return mode
@@ -363,6 +369,7 @@ func (p *simProc) stall(ctx context.Context, mode simMode) simMode {
 	<-ctx.Done()
 	p.w.mu.Lock()
 	p.w.stalls++
+	op.deadline = ctx.Err()
 	return simErrNoApply
 }
 
@@ -393,6 +400,9 @@ func (p *simProc) finish(op *simOp, mode simMode, applied bool) error {
 	case simOK:
 		return nil
 	case simErrNoApply, simErrApplied:
+		if op.deadline != nil {
+			return fmt.Errorf("%w (%s %s): %w", errSimInjected, op.Kind, op.Key, op.deadline)
+		}
 		return fmt.Errorf("%w (%s %s)", errSimInjected, op.Kind, op.Key)
 	default:
 		return fmt.Errorf("%w (%s %s)", errSimCrashed, op.Kind, op.Key)
@@ -414,7 +424,7 @@ func (b *simBackend) Upload(ctx context.Context, key string, data []byte, opts *
 	if op.Class == "staging" && !op.Inline {
 		p.batchKeys = simBundleKeys(data)
 	}
-	mode := p.stall(ctx, p.decide(op))
+	mode := p.stall(ctx, op, p.decide(op))
 	applied := mode == simOK || mode == simErrApplied || mode == simCrashAfter
 	if applied {
 		old, had := w.objs[key]
@@ -450,7 +460,7 @@ func (b *simBackend) Fetch(ctx context.Context, key string) ([]byte, error) {
 	p.doYield(ctx, op)
 	w.mu.Lock()
 	defer w.mu.Unlock()
-	mode := p.stall(ctx, p.decide(op))
+	mode := p.stall(ctx, op, p.decide(op))
 	if mode == simErrApplied {
 		mode = simErrNoApply
 	}
@@ -487,7 +497,7 @@ func (b *simBackend) Discard(ctx context.Context, key string) error {
 	p.doYield(ctx, op)
 	w.mu.Lock()
 	defer w.mu.Unlock()
-	mode := p.stall(ctx, p.decide(op))
+	mode := p.stall(ctx, op, p.decide(op))
 	applied := mode == simOK || mode == simErrApplied || mode == simCrashAfter
 	if applied {
 		if !strings.HasPrefix(key, "staging/") {
@@ -527,7 +537,7 @@ func (l *simLock) Fetch(ctx context.Context, logID [sha256.Size]byte) (LockedChe
 	p.doYield(ctx, op)
 	w.mu.Lock()
 	defer w.mu.Unlock()
-	mode := p.stall(ctx, p.decide(op))
+	mode := p.stall(ctx, op, p.decide(op))
 	if mode == simErrApplied {
 		mode = simErrNoApply
 	}
@@ -560,7 +570,7 @@ func (l *simLock) Replace(ctx context.Context, old LockedCheckpoint, new []byte)
 	p.doYield(ctx, op)
 	w.mu.Lock()
 	defer w.mu.Unlock()
-	mode := p.stall(ctx, p.decide(op))
+	mode := p.stall(ctx, op, p.decide(op))
 	applied := mode == simOK || mode == simErrApplied || mode == simCrashAfter
 	var realNew LockedCheckpoint
 	if applied {
@@ -598,7 +608,7 @@ func (l *simLock) Create(ctx context.Context, logID [sha256.Size]byte, new []byt
 	p.doYield(ctx, op)
 	w.mu.Lock()
 	defer w.mu.Unlock()
-	mode := p.stall(ctx, p.decide(op))
+	mode := p.stall(ctx, op, p.decide(op))
 	applied := mode == simOK || mode == simErrApplied || mode == simCrashAfter
 	if applied {
 		_, exists := w.lock[logID]
